@@ -515,7 +515,7 @@ def _slice_table(c, R, rid):
         return
     if dec.get("k") == "closure":
         dec = dec["body"]
-    dconds = H.path_conditions(body, dec)
+    dconds = H.path_conditions(body, dec, skip_error_exits=True)
     R.inst(rid, "slice:decision-unconditional", not dconds, sp=dec.get("sp"), expect="the per-key decision is reached for every pair of lists",
            got=[(k, H.render(cn)[:60] if k != "arm" else "match arm", p) for k, cn, p in dconds])
     E = {0: T.sym("E_client"), 1: T.sym("E_server")}
